@@ -228,8 +228,10 @@ def evaluate(e, env):
             return r_ if isinstance(op, ast.In) else not r_
         if isinstance(op, ast.In): return a in b
         if isinstance(op, ast.NotIn): return a not in b
-        if isinstance(op, ast.Is): return a is b
-        if isinstance(op, ast.IsNot): return a is not b
+        if isinstance(op, (ast.Is, ast.IsNot)):
+            # a builtin type is the same object however it was reached: the name tuple (a PyFn around the type) and type(x)
+            a_ = a.fn if isinstance(a, PyFn) and isinstance(a.fn, type) else a; b_ = b.fn if isinstance(b, PyFn) and isinstance(b.fn, type) else b
+            return (a_ is b_) if isinstance(op, ast.Is) else (a_ is not b_)
         if isinstance(op, ast.Lt): return a < b
         if isinstance(op, ast.LtE): return a <= b
         if isinstance(op, ast.Gt): return a > b
@@ -366,6 +368,8 @@ def evaluate(e, env):
             if not callable(f_): raise Unsupported("%s with a non-callable" % e.func.id)
             return [f_(x_) for x_ in it_] if e.func.id == "map" else [x_ for x_ in it_ if f_(x_)]
         if isinstance(e.func, ast.Name) and e.func.id == "object" and not e.args and not e.keywords and "object" not in env: return _Sentinel()      # a private sentinel
+        if isinstance(e.func, ast.Attribute) and e.func.attr == "fromkeys" and isinstance(e.func.value, ast.Name) and e.func.value.id == "dict" and "dict" not in env and 1 <= len(e.args) <= 2 and not e.keywords:
+            a_ = _args(e.args, env); return _native(dict.fromkeys, [list(_iterate(a_[0], env))] + a_[1:])
         if isinstance(e.func, ast.Name) and e.func.id == "next" and 1 <= len(e.args) <= 2 and not e.keywords:
             it_ = evaluate(e.args[0], env)
             if isinstance(it_, types.GeneratorType):
